@@ -57,6 +57,12 @@ package channels
 //@     invariant inv: pipeInv(writerC, readerC, buffer)
 //@     invariant open: !chanclosed(readerC) && recvevents(ctxDone(ctx)) == 0
 
+// BufferedPipe itself: creates the two channels and the buffer and starts the goroutine above; the goroutine's
+// precondition is an obligation at the go statement (pre...@go), so the two contracts fit together.
+//@ func BufferedPipe(ctx context.Context) (chan T, chan T)
+//@   requires ctx != nil && selects() == 0 && recvevents(ctxDone(ctx)) == 0
+//@   ensures result.0 != nil && result.1 != nil && result.0 != result.1
+
 // Submit and Receive: one select each; what they report is what happened on the channel.
 //@ func Submit(ctx context.Context, channel chan T, value T) bool
 //@   requires ctx != nil && ctxDone(ctx) != channel && !chanclosed(channel)
